@@ -463,4 +463,58 @@ func TestVerifC05(t *testing.T) {
 			}
 		}
 	}
+	// ---- RF: a renewal during which one storage operation fails (the node lives on).
+	// "every lease present in storage is tracked for expiry ... so it is revoked once its
+	// expiry passes": whatever the renewal reported, afterwards the expiry the manager
+	// tracks the lease with (what its timer is armed for) must not lie after the expiry
+	// the stored record holds, and stored = tracked.
+	if only == "" || only == "RF" {
+		for _, cred := range []c05Cred{c05Creds[0], c05Creds[1], c05Creds[3], c05Creds[5], c05Creds[10]} {
+			s0 := Boot(t, img)
+			sub0, err := c05Create(s0, cred)
+			if err != nil {
+				t.Fatalf("harness: %v", err)
+			}
+			s0.Phys.FailAt("call", 1<<30)
+			s0.Phys.SetTag("call")
+			sub0.renew(s0, 50)
+			s0.Phys.SetTag("")
+			nops := s0.Phys.TagCount("call")
+			s0.Close()
+			for k := 1; k <= nops; k++ {
+				count++
+				if !vout.Mine(count) {
+					continue
+				}
+				s := Boot(t, img)
+				sub, err := c05Create(s, cred)
+				if err != nil {
+					t.Fatalf("harness: %v", err)
+				}
+				s.Phys.FailAt("call", k)
+				s.Phys.SetTag("call")
+				ok, _, _ := sub.renew(s, 50)
+				s.Phys.SetTag("")
+				failed := s.Phys.Failed()
+				fwhat, fkind := "not reached", "none"
+				if failed != nil {
+					fwhat, fkind = failed.String(), failed.Kind
+				}
+				res.Add("executions", 1)
+				res.Add("evaluations", 1)
+				res.Add("renew_fault_runs", 1)
+				art := map[string]interface{}{"part": "RF", "cred": cred.Name, "k": k}
+				if msg := trackingInvariantOpt(s, false); msg != "" {
+					res.Violate("c05:renewfault:tracking", fmt.Sprintf("%s: renewal with storage op %d [%s] failing (reported success=%v): %s", cred.Name, k, fwhat, ok, msg), art)
+				}
+				if _, stored, exists := c05ReadLease(s, sub.leaseID); exists {
+					if cached, tracked := s.Core.VerifExpiration().VerifCachedExpiry(sub.leaseID); tracked && cached.Sub(stored.ExpireTime) > 5*time.Second {
+						res.Violate("c05:renewfault:tracked-with-later-expiry-than-stored", fmt.Sprintf("%s: renewal with storage op %d [%s] failing (reported success=%v): the lease is stored with expiry in %v but tracked with expiry in %v: it will not be revoked when its stored expiry passes", cred.Name, k, fwhat, ok, time.Until(stored.ExpireTime).Round(time.Second), time.Until(cached).Round(time.Second)), art)
+					}
+				}
+				res.Distinct("nontrivial", fmt.Sprintf("RF|%s|%s|%v", cred.Name, fkind, ok))
+				s.Close()
+			}
+		}
+	}
 }
